@@ -1,6 +1,42 @@
 package bt
 
-import "encoding/binary"
+import (
+	"encoding/binary"
+	"io"
+)
+
+// readChunkSize bounds how much memory is committed ahead of the data
+// actually received when reading a length-prefixed field.
+const readChunkSize = 64 * 1024
+
+// readBytes reads exactly l bytes from r. The buffer grows as data arrives, so a
+// length prefix that exceeds the data available cannot force a large allocation.
+// It returns the bytes read so far together with any error from the reader.
+func readBytes(r io.Reader, l uint64) ([]byte, error) {
+	if l <= readChunkSize {
+		buf := make([]byte, l)
+		n, err := io.ReadFull(r, buf)
+		return buf[:n], err
+	}
+
+	buf := make([]byte, 0, readChunkSize)
+	for uint64(len(buf)) < l {
+		want := l - uint64(len(buf))
+		if want > readChunkSize {
+			want = readChunkSize
+		}
+		chunk := make([]byte, want)
+		n, err := io.ReadFull(r, chunk)
+		buf = append(buf, chunk[:n]...)
+		if err != nil {
+			if err == io.EOF {
+				err = io.ErrUnexpectedEOF
+			}
+			return buf, err
+		}
+	}
+	return buf, nil
+}
 
 // ReverseBytes reverses the bytes (little endian/big endian).
 // This is used when computing merkle trees in Bitcoin, for example.
